@@ -378,12 +378,32 @@ func Bad(name string, g *G) bool {
 		return false
 	case "planar":
 		return !graph.IsPlanar(g.Dense())
+	case "novertex": // only the graph without vertices is allowed
+		return n >= 1
+	case "edgeless":
+		for v := 0; v < n; v++ {
+			if g.Adj[v] != 0 {
+				return true
+			}
+		}
+		return false
+	case "complete":
+		for v := 0; v < n; v++ {
+			if g.Deg(v) != n-1 {
+				return true
+			}
+		}
+		return false
 	}
 	panic("unknown predicate " + name)
 }
 
 // Preds are the predicate names other than "none".
 var Preds = []string{"trifree", "k4free", "maxdeg3", "bipartite", "clawfree", "planar"}
+
+// ExtremePreds are degenerate hereditary predicates (used by the C03 harness only): they cut the
+// search at the first, second or third vertex, or leave a single path through the tree.
+var ExtremePreds = []string{"novertex", "edgeless", "complete"}
 
 // PruneFuncs returns the (preprune, prune) pair for a predicate and a placement
 // ("pre", "post", or "-" for the unrestricted search).  calls counts the invocations.
